@@ -96,7 +96,16 @@ impl<T> Receiver<T> {
             {
                 unreachable!()
             }
-            Err(_) if self.rx.is_abandoned() => Err(ChannelClosed),
+            Err(_) if self.rx.is_abandoned() => {
+                // The producer may have pushed its last values and gone away between the
+                // failed pop above and the abandoned check. Nothing can be pushed any more,
+                // so one more pop decides whether the channel is really drained.
+                std::sync::atomic::fence(std::sync::atomic::Ordering::Acquire);
+                match self.rx.pop() {
+                    Ok(val) => Ok(Some(val)),
+                    Err(_) => Err(ChannelClosed),
+                }
+            }
             Err(_) => Ok(None),
         }
     }
